@@ -278,7 +278,7 @@ func (c *check) clauses(ctx *engine.Ctx, pos int, p *propInfo, inh bool, st stri
 		switch {
 		case p.name == "display" && pos != posRoot:
 			skip = true // the root's display is blockified (CSS 2.1 §9.7); covered by the spec-initial clause
-		case p.name == "content" && (pos == posBefore || pos == posMarker || pos == posMargin):
+		case p.name == "content" && isPseudo(posLevel[pos][0]):
 			skip = true // content:normal computes to none on pseudo-elements, to contents on elements
 		case p.name == "page" && parentExplicit:
 			skip = true // used value stored (see assumptions)
